@@ -70,14 +70,32 @@ def _api(ti, tsi, latent, di, fail=False):
     return (str(p.resolution), p.production, p.subject, tuple(p.labels), None if p.score is None else round(p.score, 9))
 
 
+_KEYS = [(ti, tsi, lat, di) for ti in range(len(POOL)) for tsi in range(len(TS_POOL)) for lat in (True, False) for di in range(len(DEPTHS))]
+
+
+def solo_table(reverse=False):
+    """reference results, computed by the check driver in FRESH processes (one in forward, one in
+    reverse pool order) and handed over through VQ_SOLO: an in-process reference would itself be
+    exposed to whatever history-dependence is being looked for"""
+    ks = list(reversed(_KEYS)) if reverse else _KEYS
+    return {repr(k): _api(*k) for k in ks}
+
+
 with NoTracing():
-    _KEYS = [(ti, tsi, lat, di) for ti in range(len(POOL)) for tsi in range(len(TS_POOL)) for lat in (True, False) for di in range(len(DEPTHS))]
     SNAP0 = _snapshot()
-    # the reference results are themselves computed in this process: they are computed twice, in
-    # opposite orders; any dependence of a result on what was parsed before shows as a difference
-    SOLO = {k: _api(*k) for k in _KEYS}
-    SOLO_R = {k: _api(*k) for k in reversed(_KEYS)}
-    ORDER_DIFF = [k for k in _KEYS if SOLO[k] != SOLO_R[k]]
+    if os.environ.get("VQ_SOLO") and os.path.exists(os.environ["VQ_SOLO"]):
+        import json as _json
+        with open(os.environ["VQ_SOLO"]) as _fd:
+            _raw = _json.load(_fd)
+
+        def _t(v):
+            return tuple(_t(x) for x in v) if isinstance(v, list) else v
+        SOLO = {k: _t(_raw[repr(k)]) for k in _KEYS}
+    elif os.environ.get("VQ_SOLO_CHILD"):
+        SOLO = {}            # the child only computes a table on request, in a process that has parsed nothing yet
+    else:
+        SOLO = {k: _api(*k) for k in _KEYS}
+    ORDER_DIFF = []
 
 
 def _pick(x, n):
